@@ -414,10 +414,18 @@ func runDebugPair(c *CaseDesc) []string {
 	// the variant's Debugging value against the variant's own S7 dump
 	var names, ie string
 	var want []string
+	var listed []string // ids of the included providers in the order of the bound list
+	var called []string // ids in the order of their first call
+	seenCall := map[string]bool{}
 	nInc, nExc, total := 0, 0, 0
 	inS7 := false
 	for _, l := range v {
 		switch {
+		case strings.HasPrefix(l, "t call ") || strings.HasPrefix(l, "t wenter "):
+			if id := strings.Fields(l)[2]; !seenCall[id] {
+				seenCall[id] = true
+				called = append(called, id)
+			}
 		case strings.HasPrefix(l, "dump "):
 			inS7 = strings.HasPrefix(l, "dump S7 ")
 		case strings.HasPrefix(l, "f ") && inS7:
@@ -425,6 +433,10 @@ func runDebugPair(c *CaseDesc) []string {
 			total++
 			if kv["inc"] == "1" {
 				nInc++
+				if kv["group"] == "run" || kv["group"] == "final" {
+					// (the static part runs when init is called, which a history may do after the first invocation)
+					listed = append(listed, kv["id"])
+				}
 				origin := kv["origin"]
 				if origin == "-" {
 					origin = "" // the dump writes "-" for an empty name (providers of an unnamed sub-sequence)
@@ -449,6 +461,26 @@ func runDebugPair(c *CaseDesc) []string {
 			out = append(out, "pair dbgnames same")
 		} else {
 			out = append(out, "pair dbgnames diff reported="+names+" bound="+strings.Join(want, "|"))
+		}
+		// "in execution order": the providers that were called, in the order of their first call, must be listed in
+		// that order (Debugging lists the bound list; dbgnames ties the report to the list, this ties the list to the run)
+		var listedCalled, calledListed []string
+		inListed := map[string]bool{}
+		for _, id := range listed {
+			inListed[id] = true
+			if seenCall[id] {
+				listedCalled = append(listedCalled, id)
+			}
+		}
+		for _, id := range called {
+			if inListed[id] {
+				calledListed = append(calledListed, id)
+			}
+		}
+		if strings.Join(listedCalled, ",") == strings.Join(calledListed, ",") {
+			out = append(out, "pair dbgorder same")
+		} else {
+			out = append(out, "pair dbgorder diff listed="+strings.Join(listedCalled, ",")+" first-calls="+strings.Join(calledListed, ","))
 		}
 		if ie == fmt.Sprintf("included=%d excluded=%d total=%d", nInc, nExc, total) {
 			out = append(out, "pair dbgie same")
